@@ -29,6 +29,8 @@ def _const(c):
         return v
     if isinstance(v, str):
         return ("str", v)
+    if c.get("array") is not None:
+        return ("bytes", tuple(c["array"]))          # a named constant table of one-byte elements, evaluated by the compiler
     if c.get("static"):
         return ("ref", ("static", c["static"]))
     if c.get("promoted") is not None:
@@ -236,6 +238,12 @@ class Folder:
                 if bits is None:
                     raise Unsupported("cast to %s" % ty)
                 return v & ((1 << bits) - 1) if not ty.startswith("i") else v
+            # a reference to an array used as a slice (unsizing): the model of both is the tuple of elements
+            x = v
+            while isinstance(x, tuple) and x[0] == "ref":
+                x = x[1]
+            if isinstance(x, tuple) and x[0] == "bytes" and rv.get("ty", "").startswith("&["):
+                return v
             raise Unsupported("cast of non-integer")
         if k == "un":
             v = self._operand(f, body, env, rv["a"])
@@ -311,6 +319,15 @@ class Folder:
             return self.call(key if key in self.F.fns else base, a)
         if base in ("[T]::len", "core::slice::<impl [T]>::len") and isinstance(a[0], tuple) and a[0][0] == "bytes":
             return len(a[0][1])
+        if base in ("[T]::get", "core::slice::<impl [T]>::get") and len(a) == 2 and isinstance(a[0], tuple) and a[0][0] == "bytes" and isinstance(a[1], int):
+            return ("some", ("ref", a[0][1][a[1]])) if 0 <= a[1] < len(a[0][1]) else ("none",)
+        if base.rsplit("::", 1)[-1] in ("copied", "cloned") and len(a) == 1 and isinstance(a[0], tuple) and a[0][0] in ("some", "none"):
+            if a[0][0] == "none":
+                return a[0]
+            x = a[0][1]
+            while isinstance(x, tuple) and x[0] == "ref":
+                x = x[1]
+            return ("some", x)
         if base in ("[T]::is_empty",) and isinstance(a[0], tuple) and a[0][0] == "bytes":
             return int(len(a[0][1]) == 0)
         def call_closure(c, arg):
